@@ -190,8 +190,10 @@ def run(ctx):
         def eos_set_contains(e):
             return (e[0] == "call" and e[1].endswith("::contains") and e[2]
                     and L.is_field_read(TP, "eos_tokens")(L.strip_views(e[2][0])))
-        tl = trb.call_blocks(TLEN)
-        tl_closures = [P.bodies[c] for c in P.closures_of(trb.id) if c in P.bodies and P.bodies[c].call_blocks(TLEN)]
+        # direct sites (loop form); sites projected from an unknown closure are handled as the iterator form
+        tl = [bi for bi in trb.call_blocks(TLEN) if not trb.blocks[bi]["term"].get("via_closure")]
+        tl_closures = [P.any_body(c) for c in P.closures_of(trb.id, include_hidden=True)
+                       if P.any_body(c) is not None and P.any_body(c).call_blocks(TLEN)]
         ctx.check(bool(tl) or bool(tl_closures), "C12-R4", "rollback-bytes:token_len-accumulation", "the bytes to drop are a sum of token_len(tok)",
                   "TokenParser::rollback no longer sums token_len over the rolled-back tokens", site=trb.where())
         if tl:
@@ -219,7 +221,7 @@ def run(ctx):
                     m_ok = any(c in [x.id for x in tl_closures] for c in L._closures_in(mp[2][1]))
                     f_ok = False
                     for c in L._closures_in(fl[2][1]):
-                        clb = P.bodies.get(c)
+                        clb = P.any_body(c)
                         if clb is None:
                             continue
                         def eos_upvar(x, _clb=clb):
